@@ -792,3 +792,199 @@ pub fn hosts_of_step(ix: &Index, h: &History, s: &StepRec) -> Vec<String> {
     }
     v
 }
+
+fn col(hdr: &[String], row: &[String], name: &str) -> String {
+    hdr.iter().position(|h| h == name).and_then(|i| row.get(i)).cloned().unwrap_or_default()
+}
+
+/// C18 — the admin console lists every client and server connection once, with its true state,
+/// totals equal what was executed, nothing decreases, everything returns to zero.
+pub fn c18_stats(cx: &mut Ctx) {
+    let h = cx.h;
+    let roles = cx.spec.params.get("c18_roles").cloned().unwrap_or_default();
+    let role_of = |id: u32| roles.get(id.to_string()).and_then(|v| v.as_str()).unwrap_or("").to_string();
+    let admin = match h.clients.get(&500) {
+        Some(a) => a,
+        None => return,
+    };
+    let mut samples: BTreeMap<u32, BTreeMap<String, &StepRec>> = BTreeMap::new();
+    for s in &admin.steps {
+        if s.op == "send" && step_ok(s) && s.txn > 0 {
+            let sql = proto::split_all(&s.sent).0.first().and_then(|m| proto::Reader::new(&m.body).cstr()).unwrap_or_default();
+            samples.entry(s.txn).or_default().insert(sql, s);
+        }
+    }
+    let session = cx.pool_mode("db", "app") == "session";
+    // ---- sample 1: everybody is parked at the barrier ----
+    if let Some(s1) = samples.get(&1) {
+        cx.probe("c18_sample_at_barrier");
+        let sample_seq = s1.values().map(|s| s.start_seq).min().unwrap_or(0);
+        // who is connected (authenticated, not finished) at the sample?
+        let mut connected: Vec<u32> = Vec::new();
+        let mut expect_active: Vec<u32> = Vec::new();
+        for c in h.clients.values() {
+            if c.database != "db" || c.auth_result != "ok" {
+                continue;
+            }
+            if c.finished && c.finished_seq < sample_seq {
+                continue;
+            }
+            if c.ready_seq.map(|r| r > sample_seq).unwrap_or(true) {
+                continue;
+            }
+            connected.push(c.id);
+            let r = role_of(c.id);
+            let ran_something = c.steps.iter().any(|s| s.op == "send" && s.done_seq < sample_seq && step_ok(s) && pooler_error(&s.msgs).is_none());
+            if r == "holder" || (session && ran_something) {
+                expect_active.push(c.id);
+            }
+        }
+        if let Some(s) = s1.get("SHOW CLIENTS") {
+            let hdr = header_of(&s.msgs);
+            let rows: Vec<Vec<String>> = rows_of(&s.msgs).into_iter().filter(|r| col(&hdr, r, "database") == "db").collect();
+            let mut seen: BTreeMap<String, usize> = BTreeMap::new();
+            for r in &rows {
+                *seen.entry(col(&hdr, r, "application_name")).or_insert(0) += 1;
+            }
+            for id in &connected {
+                let n = seen.get(&format!("cl{}", id)).cloned().unwrap_or(0);
+                if n != 1 {
+                    cx.v("C18", "client_listing", &format!("C18/show_clients/connected_client_listed_{}_times", n.min(2)), s.done_seq, format!("client {} is connected at the barrier but SHOW CLIENTS lists it {} time(s)", id, n));
+                }
+            }
+            if rows.len() != connected.len() {
+                let kind = if rows.len() > connected.len() { "ghost_client" } else { "missing_client" };
+                cx.v("C18", "client_listing", &format!("C18/show_clients/{}", kind), s.done_seq, format!("SHOW CLIENTS lists {} clients of db, {} are connected ({:?}); listed: {:?}", rows.len(), connected.len(), connected, seen));
+            }
+            for r in &rows {
+                let app = col(&hdr, r, "application_name");
+                let st = col(&hdr, r, "state");
+                if let Some(idn) = app.strip_prefix("cl").and_then(|x| x.parse::<u32>().ok()) {
+                    let want = if expect_active.contains(&idn) { "active" } else { "idle" };
+                    if connected.contains(&idn) && st != want {
+                        cx.v("C18", "client_state", &format!("C18/show_clients/state_{}_expected_{}", st, want), s.done_seq, format!("client {} ({}) is shown as {} at the barrier, expected {}", idn, role_of(idn), st, want));
+                    }
+                }
+            }
+        }
+        if let Some(s) = s1.get("SHOW POOLS") {
+            let hdr = header_of(&s.msgs);
+            for r in rows_of(&s.msgs).iter().filter(|r| col(&hdr, r, "database") == "db") {
+                let n = |k: &str| col(&hdr, r, k).parse::<usize>().unwrap_or(9999);
+                if n("cl_idle") + n("cl_active") + n("cl_waiting") != connected.len() {
+                    cx.v("C18", "pool_client_sum", "C18/show_pools/client_states_do_not_add_up", s.done_seq, format!("cl_idle {} + cl_active {} + cl_waiting {} != {} connected clients", n("cl_idle"), n("cl_active"), n("cl_waiting"), connected.len()));
+                }
+                if n("cl_active") != expect_active.len() || n("sv_active") != expect_active.len() {
+                    cx.v("C18", "pool_active", "C18/show_pools/active_counts", s.done_seq, format!("cl_active {} sv_active {} but {} clients hold a server at the barrier ({:?})", n("cl_active"), n("sv_active"), expect_active.len(), expect_active));
+                }
+            }
+        }
+        if let Some(s) = s1.get("SHOW SERVERS") {
+            let hdr = header_of(&s.msgs);
+            let rows = rows_of(&s.msgs);
+            let live = h.backend_conns.iter().filter(|c| c.kind == "session" && c.authed_seq.map(|a| a < sample_seq).unwrap_or(false) && simcore::net::world::pgcat_closed_at(c.net_conn).map(|(q, _)| q > s.done_seq).unwrap_or(true)).count();
+            if rows.len() != live {
+                cx.v("C18", "server_listing", &format!("C18/show_servers/{}", if rows.len() > live { "ghost_server" } else { "missing_server" }), s.done_seq, format!("SHOW SERVERS lists {} server connections, PgCat has {} open to the mock", rows.len(), live));
+            }
+            let active = rows.iter().filter(|r| col(&hdr, r, "state") == "active").count();
+            if active != expect_active.len() {
+                cx.v("C18", "server_state", "C18/show_servers/active_count", s.done_seq, format!("{} servers shown active, {} clients hold one", active, expect_active.len()));
+            }
+            let mut ids = BTreeSet::new();
+            for r in &rows {
+                if !ids.insert(col(&hdr, r, "server_id")) {
+                    cx.v("C18", "server_listing", "C18/show_servers/listed_twice", s.done_seq, "a server connection is listed twice".into());
+                }
+            }
+        }
+    }
+    // ---- sample 2: everybody has left ----
+    if let Some(s2) = samples.get(&2) {
+        cx.probe("c18_final_sample");
+        if let Some(s) = s2.get("SHOW CLIENTS") {
+            let hdr = header_of(&s.msgs);
+            let rows: Vec<Vec<String>> = rows_of(&s.msgs).into_iter().filter(|r| col(&hdr, r, "database") == "db").collect();
+            if !rows.is_empty() {
+                let who: Vec<String> = rows.iter().map(|r| format!("{}:{}", col(&hdr, r, "application_name"), col(&hdr, r, "state"))).collect();
+                let kinds: Vec<String> = rows.iter().filter_map(|r| col(&hdr, r, "application_name").strip_prefix("cl").and_then(|x| x.parse::<u32>().ok())).map(|idn| role_of(idn)).collect();
+                cx.v("C18", "ghost_client", &format!("C18/final/ghost_client/{}", kinds.first().cloned().unwrap_or_default()), s.done_seq, format!("all clients have left but SHOW CLIENTS still lists {:?}", who));
+            }
+        }
+        if let Some(s) = s2.get("SHOW POOLS") {
+            let hdr = header_of(&s.msgs);
+            for r in rows_of(&s.msgs).iter().filter(|r| col(&hdr, r, "database") == "db") {
+                for k in ["cl_idle", "cl_active", "cl_waiting", "sv_active"] {
+                    if col(&hdr, r, k) != "0" {
+                        cx.v("C18", "final_nonzero", &format!("C18/final/show_pools_{}_nonzero", k), s.done_seq, format!("all clients have left but SHOW POOLS shows {} = {}", k, col(&hdr, r, k)));
+                    }
+                }
+            }
+        }
+        if let Some(s) = s2.get("SHOW SERVERS") {
+            let hdr = header_of(&s.msgs);
+            for r in rows_of(&s.msgs) {
+                if col(&hdr, &r, "state") == "active" {
+                    cx.v("C18", "final_nonzero", "C18/final/server_left_active", s.done_seq, format!("all clients have left but SHOW SERVERS shows {} active", col(&hdr, &r, "address_id")));
+                }
+            }
+        }
+        if let Some(s) = s2.get("SHOW LISTS") {
+            for r in rows_of(&s.msgs) {
+                if (r.first().map(|x| x == "used_clients" || x == "used_servers").unwrap_or(false)) && r.get(1).map(|x| x != "0").unwrap_or(false) {
+                    cx.v("C18", "final_nonzero", &format!("C18/final/show_lists_{}_nonzero", r[0]), s.done_seq, format!("all clients have left but SHOW LISTS shows {} = {}", r[0], r[1]));
+                }
+            }
+        }
+        // totals: requests and transactions actually executed on the servers
+        if let Some(s) = s2.get("SHOW STATS") {
+            let hdr = header_of(&s.msgs);
+            let mut xact = 0u64;
+            let mut query = 0u64;
+            for r in rows_of(&s.msgs) {
+                xact += col(&hdr, &r, "total_xact_count").parse::<u64>().unwrap_or(0);
+                query += col(&hdr, &r, "total_query_count").parse::<u64>().unwrap_or(0);
+            }
+            let mut units = 0u64;
+            let mut idle_units = 0u64;
+            for c in &h.backend_conns {
+                if c.kind != "session" {
+                    continue;
+                }
+                for u in &c.units {
+                    if u.tags.is_empty() || is_pooler_unit(u) || u.rfq == 0 || u.first_seq > s.start_seq {
+                        continue;
+                    }
+                    units += 1;
+                    if u.rfq == b'I' {
+                        idle_units += 1;
+                    }
+                }
+            }
+            cx.probe("c18_totals_compared");
+            if query != units {
+                cx.v("C18", "query_total", "C18/totals/total_query_count", s.done_seq, format!("SHOW STATS total_query_count sums to {}, the servers executed {} client requests", query, units));
+            }
+            if xact != idle_units {
+                cx.v("C18", "xact_total", "C18/totals/total_xact_count", s.done_seq, format!("SHOW STATS total_xact_count sums to {}, {} client requests ended a transaction on the servers", xact, idle_units));
+            }
+        }
+        // monotone totals between the two samples
+        if let (Some(a), Some(b)) = (samples.get(&1).and_then(|m| m.get("SHOW STATS")), s2.get("SHOW STATS")) {
+            let ha = header_of(&a.msgs);
+            let hb = header_of(&b.msgs);
+            for ra in rows_of(&a.msgs) {
+                let inst = col(&ha, &ra, "instance");
+                if let Some(rb) = rows_of(&b.msgs).into_iter().find(|r| col(&hb, r, "instance") == inst) {
+                    for k in ["total_xact_count", "total_query_count", "total_received", "total_sent", "total_xact_time", "total_query_time", "total_wait_time", "total_errors"] {
+                        let va = col(&ha, &ra, k).parse::<u64>().unwrap_or(0);
+                        let vb = col(&hb, &rb, k).parse::<u64>().unwrap_or(0);
+                        if vb < va {
+                            cx.v("C18", "total_decreased", &format!("C18/totals/{}_decreased", k), b.done_seq, format!("{} of {} went from {} to {}", k, inst, va, vb));
+                        }
+                    }
+                    cx.probe("c18_monotone_compared");
+                }
+            }
+        }
+    }
+}
